@@ -548,6 +548,8 @@ def _replay_runs(data):
                 return v, detail
         if what == "create":
             return _replay_import_data()
+        if what == "latest":
+            return _replay_project_history()
         return False, "run numbering scenarios behave as documented"
     base = env.get("base", "a")
     dirs = [env.get(f"d{i}") for i in range(3) if env.get(f"present{i}") and env.get(f"d{i}")]
@@ -577,6 +579,42 @@ def _replay_runs(data):
             return True, f"{state}: lookup of {arg!r} raised {type(ex).__name__}: {ex}"
         want = exact[-1] if exact else None
         return got != want, f"{state}: latest result for {arg!r} resolves to {got!r}, expected {want!r}"
+
+
+def _replay_project_history():
+    """Concrete (sampling) history on one real Project object: store a run, look up the latest result, store another run, look up
+    again - every lookup must resolve to the most recent run at the time it is made (no stale state between lookups)."""
+    import dataclasses
+    import tempfile
+    import warnings as _w
+    from pathlib import Path
+
+    from glotaran.io import save_result
+    from glotaran.optimization.optimize import optimize
+    from glotaran.project.project import Project
+    from glotaran.testing.simulated_data.sequential_spectral_decay import SCHEME
+
+    with tempfile.TemporaryDirectory() as d, _w.catch_warnings():
+        _w.simplefilter("ignore")
+        result = optimize(dataclasses.replace(SCHEME, maximum_number_function_evaluations=1), verbose=False)
+        project = Project.open(Path(d) / "proj", create_if_not_exist=True)
+        resdir = project._result_registry.directory
+        for run in range(3):
+            name = project._result_registry.create_result_run_name("fit")
+            if name != f"fit_run_{run:04}":
+                return True, f"history step {run}: new run folder {name!r}, expected 'fit_run_{run:04}'"
+            save_result(result, resdir / name / "result.yml")
+            for how, load in (("load_latest_result('fit')", lambda: project.load_latest_result("fit")),
+                              ("load_result('fit', latest=True)", lambda: project.load_result("fit", latest=True)),
+                              ("load_latest_result('fit_run_0000')", lambda: project.load_latest_result("fit_run_0000"))):
+                got = Path(load().source_path).parent.name
+                if got != name:
+                    return True, (f"after storing run {name!r} (earlier runs looked up before on the same Project object): {how} was read "
+                                  f"from {got!r}")
+            early = Path(project.load_result("fit_run_0000").source_path).parent.name
+            if early != "fit_run_0000":
+                return True, f"after storing run {name!r}: load_result('fit_run_0000') was read from {early!r}"
+    return False, "latest-result lookups follow the history"
 
 
 def _replay_import_data():
